@@ -27,4 +27,29 @@ CHECKS = {
             "the concrete implementors (Cal, UnionCal, NamedCal) satisfy the abstract calendar interface: covered under C06",
         ],
     },
+    "C05": {
+        "units": ["dateroll"],
+        "level": "proof",
+        "assumptions": CHRONO_ASSUMPTIONS + [
+            "the n-th business day (and, with settlement, an eligible day beyond it) exists inside chrono's range (add_bus_pre / lag_pre); bus_date_range additionally needs a business day after `end` (the real loop computes it)",
+        ],
+        "uncovered": [],
+    },
+    "C08": {
+        "units": ["dateroll"],
+        "level": "proof",
+        "assumptions": CHRONO_ASSUMPTIONS + [
+            "specs of i32::abs / signum / rem_euclid / TryFrom (shim/intspecs.rs)",
+            "the target year lies in chrono's representable range (the property's 1970-2200 is inside it)",
+        ],
+        "uncovered": [],
+    },
+    "C20": {
+        "units": ["dateroll"],
+        "level": "proof",
+        "assumptions": CHRONO_ASSUMPTIONS,
+        "uncovered": [
+            "JSON text handling (serde_json), Ccy::try_new (global interner), NamedCal::try_new string handling: outside both verifiers' reach (DESIGN.md §7 C20)",
+        ],
+    },
 }
